@@ -72,6 +72,9 @@ class Run(RunBase):
         if k == "add_from_network":
             return all(x in self.pool for x in op["keys"]) and len(ids) == len(op["keys"]) and len(ids) > 0 and \
                 not (ids & set(self.present))
+        if k == "add_batch":
+            return all(x in self.pool for x in op["keys"]) and len(ids) == len(op["keys"]) >= 2 and \
+                not (ids & set(self.present))
         if k == "remove":
             return op["id"] in self.present
         if k == "cut_out":
@@ -344,6 +347,19 @@ class Run(RunBase):
             self._expect(s)
         return "ok"
 
+    def _op_add_batch(self, op):
+        specs = [self.pool[k] for k in op["keys"]]
+
+        def f():
+            built = [build.build_lanelet(s) for s in specs]
+            for la in built[:-1]:
+                self.net.add_lanelet(la, rtree=False)
+            self.net.add_lanelet(built[-1], rtree=True)
+        self._route("add_lanelet[rtree=False..True]", f)
+        for s in specs:
+            self._expect(s)
+        return "ok"
+
     def _op_add_clash(self, op):
         specs = [self.pool[k] for k in op["keys"]]
         self.faults["F-reject"] += 1
@@ -519,6 +535,8 @@ def _builder(rng, run, cfg):
             yield {"op": r, "key": rng.pick(cand)} if cand else None
         elif r == "add_from_network" and free:
             yield {"op": r, "keys": rng.sample(free, rng.randint(1, len(free)))}
+        elif r == "add_batch" and len(free) >= 2:
+            yield {"op": r, "keys": rng.sample(free, rng.randint(2, len(free)))}
         elif r == "add_clash" and run.present:
             used = [k for k in keys if run.pool[k]["id"] in run.present]
             clash = [k for k in all_keys if k.startswith("x") and run.pool[k]["id"] in run.present]
@@ -577,7 +595,7 @@ def _restarter(rng, run, cfg):
         yield {"op": "restart", "how": rng.pick(cfg["restart_kinds"])}
 
 
-ROUTES = ["create_from_list", "add_one", "scenario_add", "add_from_network", "remove", "cut_out", "add_clash"]
+ROUTES = ["create_from_list", "add_one", "scenario_add", "add_from_network", "remove", "cut_out", "add_clash", "add_batch"]
 RESTARTS = ["deepcopy", "deepcopy_net", "pickle", "pickle_net", "xml", "xml_net", "pb"]
 
 
@@ -591,7 +609,7 @@ class C06(Property):
                        "restart-deepcopy_net", "restart-pickle_net", "point-inside", "point-in-two-lanelets",
                        "shape-query-rect", "shape-query-circ", "shape-query-poly", "shape-meets-several-lanelets",
                        "obstacle-mapping-checked", "shape-query-via-translate_rotate",
-                       "shape-query-via-rotate_translate_local", "coincident-lanelets", "route:add-with-id-clash"]
+                       "shape-query-via-rotate_translate_local", "coincident-lanelets", "route:add-with-id-clash", "route:add_lanelet[rtree=False..True]"]
     assumptions = [
         "geometric truth comes from crkit.geom (raw vertices / parameters, shapely predicates on geometry built there) "
         "with a don't-care band: clearance or penetration below 1e-7, and for circles distances in [0.99 r, r] "
